@@ -243,7 +243,7 @@ def register(lib):
 
     @reg(r'^<.* as Iterator>::by_ref$', 'Iterator::by_ref')
     def _by_ref(fr, name, args, ops):
-        return lib.deref(args[0])
+        return args[0]            # &mut Self: the very same iterator, consumption is shared with the original
 
     @reg(r'^core::slice::<impl \[.*\]>::chunks$', 'slice::chunks')
     def _chunks(fr, name, args, ops):
@@ -276,6 +276,14 @@ def register(lib):
                 return
             yield v
 
+    def spoil(it, why):
+        """a short-circuiting consumer (all / any / position) ran over `it` with a symbolic condition: the real iterator stops
+        after the deciding element, where that is depends on the data.  The models visit every element (right for the result),
+        so what is left in a borrowed iterator afterwards is not modelled: any later use of it must not yield a verdict."""
+        from .mirsym import Poison
+        for k in range(len(it)):
+            it[k] = Poison(why)
+
     @reg(r'^<.* as Iterator>::all::<', 'Iterator::all')
     def _all(fr, name, args, ops):
         it, f = lib.deref(args[0]) if type(args[0]) is Ptr else args[0], args[1]
@@ -291,6 +299,8 @@ def register(lib):
             acc = T.land(acc, r)
             if type(acc) is int and not acc:
                 return 0
+        if type(acc) is not int:
+            spoil(it, 'iterator after all() with a symbolic condition')
         return acc
 
     @reg(r'^<.* as Iterator>::any::<', 'Iterator::any')
@@ -304,6 +314,8 @@ def register(lib):
             acc = T.lor(acc, r)
             if type(acc) is int and acc:
                 return 1
+        if type(acc) is not int:
+            spoil(it, 'iterator after any() with a symbolic condition')
         return acc
 
     @reg(r'^<.* as Iterator>::position::<', 'Iterator::position')
@@ -318,6 +330,8 @@ def register(lib):
             if type(r) is int and r:
                 break
         found = T.or_many(hits) if hits else 0
+        if type(found) is not int or any(type(h) is not int for h in hits):
+            spoil(it, 'iterator after position() with a symbolic condition')
         idx = 0
         for k in range(len(hits) - 1, -1, -1):
             idx = T.ite(64, hits[k], k, idx)
